@@ -96,6 +96,24 @@ theorem addDissem_sinv (env : Nat → Content) (sd : SlotData) (s : Shred) (hinv
     obtain ⟨h1, h2, h3⟩ := hinv.rep h b hg
     exact ⟨h1, h2.trans hslot.symm, h3.trans hcap.symm⟩
 
+/-- the leader's own slices (`add_own_slice`, under its own assert and with a parent on the first slice) -/
+theorem addOwn_sinv (sd : SlotData) (c : Commitment) (sz : Nat) (parent : Option (Nat × Nat)) (txs : Option (List Nat))
+    (hinv : SInv sd) (hl : sd.dis.lastSlice = none) (hp : c.slice = 0 → parent.isSome) :
+    SInv (addOwn sd c sz parent txs).1 := by
+  obtain ⟨h1, h2, h3⟩ := addOwnSlice_binv sd.dis c sz parent txs hinv.dis hl hp
+  have e : (addOwn sd c sz parent txs).1 = { sd with dis := (addOwnSlice sd.dis c sz parent txs).1 } := by
+    unfold addOwn
+    generalize addOwnSlice sd.dis c sz parent txs = res
+    obtain ⟨b, r⟩ := res
+    cases r <;> rfl
+  rw [e]
+  refine ⟨h1, ?_, ?_⟩
+  · intro h b hg
+    obtain ⟨a1, a2, a3⟩ := hinv.rep h b hg
+    exact ⟨a1, a2.trans h2.symm, a3.trans h3.symm⟩
+  · intro h b blk hg hc
+    exact hinv.ok h b blk hg hc
+
 theorem runDissem_sinv (env : Nat → Content) (ss : List Shred) (sd : SlotData) (hinv : SInv sd) :
     SInv (runDissem env sd ss).1 := by
   induction ss generalizing sd with
